@@ -19,29 +19,38 @@
 EXTENDS Integers, Sequences, FiniteSets, FiniteSetsExt, TLC, Json, Rational, Decimal
 
 CONSTANTS
-    Keys,         \* species keys: records [t |-> text, lead |-> "" | "(" | "[" | "{"]
-    AllowedKeys,  \* key texts of the allowed-key list (used when a list is given)
-    AllowedModes, \* subset of BOOLEAN: may a list be given (TRUE) / not given (FALSE)
-    Forms,        \* subset of {"bare", "n", "nstar", "dec"}
-    IntCoefs,     \* coefficient records written as integers
-    DecCoefs,     \* coefficient records written as decimals
-    InactCoefs,   \* coefficient records inside "(n X)"
-    MaxReac, MaxProd,   \* terms per side (active + inactive)
-    MaxInact,     \* parenthesised terms per line
-    Arrows,       \* subset of {"->", "="}
-    Params,       \* parameter records [v |-> decimal, style |-> "sci" | "fix" | "int"]
-    Kws,          \* keyword records [k |-> "ref" | "name", v |-> text]
-    MaxLines,     \* reaction lines per text
-    Comments,     \* comment / blank line texts
-    MaxComments,
-    FaultKinds,   \* subset of {"unknownkey", "missingarrow", "wrongarrow"}
-    PrintOpts     \* printing options tried in the second phase: records [wp |-> with_param, wn |-> with_name]
+    SliceTable,   \* slice name -> record of the alphabets and bounds the texts of that slice are generated from
+    SliceNames    \* the slices explored in this run (one TLC run may explore several, independent ones)
 
 VARIABLES doc, line, toks, den, lines, side, nside, ninact, stage, fault, allowed, arrow, klass,
-          ncom, printed, reparsed
+          ncom, printed, reparsed, cfgv, sl
 
 vars == <<doc, line, toks, den, lines, side, nside, ninact, stage, fault, allowed, arrow, klass,
-          ncom, printed, reparsed>>
+          ncom, printed, reparsed, cfgv, sl>>
+
+
+(* the alphabets of the slice being explored (sl is fixed in the initial state) *)
+SliceRec == SliceTable[sl]
+Keys == SliceRec.Keys                  \* species keys: records [t |-> text, lead |-> "" | "(" | "[" | "{"]
+AllowedKeys == SliceRec.AllowedKeys    \* key texts of the allowed-key list (used when a list is given)
+AllowedModes == SliceRec.AllowedModes  \* subset of BOOLEAN: may a list be given (TRUE) / not given (FALSE)
+AllowedForms == SliceRec.AllowedForms  \* container of the list: subset of {"list", "tuple", "set", "dict", "str"}
+Forms == SliceRec.Forms                \* subset of {"bare", "n", "nstar", "dec", "decstar"}
+IntCoefs == SliceRec.IntCoefs          \* coefficient records written as integers
+DecCoefs == SliceRec.DecCoefs          \* coefficient records written as decimals
+InactCoefs == SliceRec.InactCoefs      \* coefficient records inside "(n X)"
+MaxReac == SliceRec.MaxReac            \* terms per side (active + inactive)
+MaxProd == SliceRec.MaxProd
+MaxInact == SliceRec.MaxInact          \* parenthesised terms per line
+Arrows == SliceRec.Arrows              \* subset of {"->", "="}
+Params == SliceRec.Params              \* parameter records [kind |-> "num" | "qty" | "sym", ...]
+Kws == SliceRec.Kws                    \* keyword records [k |-> "ref" | "name", v |-> text]
+MaxLines == SliceRec.MaxLines          \* reaction lines per text
+Comments == SliceRec.Comments          \* comment / blank line records [t |-> text, tok |-> token ("" = blank)]
+MaxComments == SliceRec.MaxComments
+FaultKinds == SliceRec.FaultKinds      \* subset of {"unknownkey", "missingarrow", "wrongarrow", "notacomment"}
+PrintOpts == SliceRec.PrintOpts        \* printing options tried in the second phase: records [wp, wn]
+Configs == SliceRec.Configs            \* reader / writing configurations the texts are generated under
 
 ------------------------------------------------------------------------------
 (* vocabulary *)
@@ -50,37 +59,74 @@ Pow10(k) == IPow(10, k)
 \* coefficients: ip.fp with fd fractional digits; text and value travel together
 Coef(ip, fd, fp) == [ip |-> ip, fd |-> fd, fp |-> fp]
 One == Coef(1, 0, 0)
-IsCoef(c) == c.ip \in Nat /\ c.fd \in 0..3 /\ c.fp \in 0..(Pow10(c.fd) - 1) /\ (c.ip > 0 \/ c.fp > 0)
+IsCoef(c) == c.ip \in Nat /\ c.fd \in 0..5 /\ c.fp \in 0..(Pow10(c.fd) - 1) /\ (c.ip > 0 \/ c.fp > 0)
 CoefVal(c) == Norm(<<c.ip * Pow10(c.fd) + c.fp, Pow10(c.fd)>>)
-PadN(k, w) == IF w = 0 THEN ""
-              ELSE IF w = 1 THEN ToString(k)
-              ELSE IF w = 2 THEN (IF k < 10 THEN "0" ELSE "") \o ToString(k)
-              ELSE (IF k < 10 THEN "00" ELSE IF k < 100 THEN "0" ELSE "") \o ToString(k)
+RECURSIVE PadN(_, _)
+PadN(k, w) == IF w = 0 THEN "" ELSE PadN(k \div 10, w - 1) \o ToString(k % 10)
 CoefText(c) == ToString(c.ip) \o (IF c.fd = 0 THEN "" ELSE "." \o PadN(c.fp, c.fd))
 FormOK(f, c) == /\ IsCoef(c)
                 /\ (f = "bare" => c = One)
                 /\ (f \in {"n", "nstar"} => c.fd = 0)
-                /\ (f = "dec" => c.fd > 0)
-                /\ f \in {"bare", "n", "nstar", "dec"}
-FormText(f, c) == IF f = "bare" THEN ""
-                  ELSE IF f = "nstar" THEN CoefText(c) \o " * "
-                  ELSE CoefText(c) \o " "
+                /\ (f \in {"dec", "decstar"} => c.fd > 0)
+                /\ f \in {"bare", "n", "nstar", "dec", "decstar"}
 
-\* parameters: an exact decimal and the way it is written
+(* the configuration a text is written and read under.  Everything here is an argument or an     *)
+(* option of the readers, or a freedom of the notation, that must not change what is read:      *)
+(*   spc    spacing: "normal" | "wide" (extra blanks around every token, leading / trailing      *)
+(*          blanks) | "tight" (no blank after ';' and ',')                                       *)
+(*   eol    line ends: "lf" (final newline) | "lfnt" (no final newline) | "crlf"                 *)
+(*   gmode  globals_ argument: "default" | "empty" (a dict without units) | "none" (False: the   *)
+(*          parameter part is not evaluated, the parameter is None)                             *)
+(*   ctoks  comment_tokens argument: "default" ("#") | "custom" ("//", "%")                      *)
+(*   msfk   missing_substances_from_keys (systems): keys outside the given list are added to    *)
+(*          the system instead of being rejected                                                *)
+(*   dq     keyword values in double instead of single quotes                                   *)
+(*   argname / argref / argparam  name=, ref=, param= handed over as keyword arguments of       *)
+(*          from_string instead of being written in the text (the text wins)                    *)
+NoArgParam == [some |-> FALSE]
+DefaultCfg == [spc |-> "normal", eol |-> "lf", gmode |-> "default", ctoks |-> "default", msfk |-> FALSE,
+               dq |-> FALSE, argname |-> "", argref |-> "", argparam |-> NoArgParam]
+Wide == cfgv.spc = "wide"
+Tight == cfgv.spc = "tight"
+Gap == IF Wide THEN "  " ELSE " "
+PlusSep == IF Wide THEN "  +  " ELSE " + "
+ArrowText(a) == IF Wide THEN "   " \o a \o "  " ELSE " " \o a \o " "
+SemiSep == IF Wide THEN " ;  " ELSE IF Tight THEN ";" ELSE "; "
+CommaSep == IF Wide THEN " ,  " ELSE IF Tight THEN "," ELSE ", "
+Quote == IF cfgv.dq THEN "\"" ELSE "'"
+HasArgs == cfgv.argname # "" \/ cfgv.argref # "" \/ cfgv.argparam.some
+ActiveTokens == IF cfgv.ctoks = "default" THEN {"#"} ELSE {"//", "%"}
+FormText(f, c) == IF f = "bare" THEN ""
+                  ELSE IF f \in {"nstar", "decstar"} THEN CoefText(c) \o Gap \o "*" \o Gap
+                  ELSE CoefText(c) \o Gap
+
+\* parameters.  kind "num": an exact decimal and the way it is written; "qty": a number times a unit
+\* expression of the default parsing context (a quantity); "sym": a quoted name (a symbolic rate constant)
 NoParam == [some |-> FALSE]
-SomeParam(v) == [some |-> TRUE, v |-> v]
+SomeParam(v) == [some |-> TRUE, kind |-> "num", v |-> v]
+QtyParam(v, dim) == [some |-> TRUE, kind |-> "qty", v |-> v, unit |-> dim]
+SymParam(name) == [some |-> TRUE, kind |-> "sym", name |-> name]
+\* unit expressions as they are written after the number, and the dimensionality they denote
+UnitExprs == { [expr |-> "/second", dim |-> "1/s"], [expr |-> "/molar/second", dim |-> "1/(s*M)"],
+               [expr |-> "*molar", dim |-> "M"], [expr |-> "/molar**2/second", dim |-> "1/(s*M**2)"] }
 IntPart(v) == [i \in 1..(v.e + 1) |-> IF i <= Len(v.digs) THEN v.digs[i] ELSE 0]
 FracPart(v) == IF Len(v.digs) > v.e + 1 THEN SubSeq(v.digs, v.e + 2, Len(v.digs)) ELSE <<>>
 ParamStyleOK(v, st) ==
     /\ IsNorm(v) /\ v.digs # <<>>
-    /\ st \in {"sci", "fix", "int"}
+    /\ st \in {"sci", "sciP", "sciE", "fix", "int", "pow10"}
     /\ (st = "int" => (v.e >= 0 /\ Len(v.digs) <= v.e + 1 /\ v.e <= 8))
     /\ (st = "fix" => (v.e >= -6 /\ v.e <= 15))
+    /\ (st = "sciP" => (v.e >= -99 /\ v.e <= 99))
+    /\ (st = "pow10" => (v.digs = <<1>> /\ ~v.neg /\ v.e >= 0 /\ v.e <= 8))
+Mantissa(v) == ToString(v.digs[1]) \o (IF Len(v.digs) > 1 THEN "." \o DigStr(Tail(v.digs)) ELSE "")
+Abs2(k) == IF k < 0 THEN -k ELSE k
 ParamText(v, st) ==
     (IF v.neg THEN "-" ELSE "") \o
-    (IF st = "sci"
-     THEN ToString(v.digs[1]) \o (IF Len(v.digs) > 1 THEN "." \o DigStr(Tail(v.digs)) ELSE "")
-          \o "e" \o ToString(v.e)
+    (IF st = "sci" THEN Mantissa(v) \o "e" \o ToString(v.e)
+     ELSE IF st = "sciE" THEN Mantissa(v) \o "E" \o ToString(v.e)
+     \* the spelling printf (and hence the printer) uses: explicit sign, two exponent digits
+     ELSE IF st = "sciP" THEN Mantissa(v) \o "e" \o (IF v.e < 0 THEN "-" ELSE "+") \o PadN(Abs2(v.e), 2)
+     ELSE IF st = "pow10" THEN "10**" \o ToString(v.e)
      ELSE IF st = "int" THEN DigStr(IntPart(v))
      ELSE IF v.e >= 0 THEN DigStr(IntPart(v)) \o "." \o (IF FracPart(v) = <<>> THEN "0" ELSE DigStr(FracPart(v)))
      ELSE "0." \o DigStr([i \in 1..(-v.e - 1) |-> 0]) \o DigStr(v.digs))
@@ -94,25 +140,44 @@ EmptyDen == [reac |-> EmptyM, prod |-> EmptyM, ireac |-> EmptyM, iprod |-> Empty
 IField(s) == IF s = "reac" THEN "ireac" ELSE "iprod"
 KlassOf(a) == IF a = "->" THEN "Reaction" ELSE "Equilibrium"
 OtherKlass(a) == IF a = "->" THEN "Equilibrium" ELSE "Reaction"
+\* what the keyword arguments contribute: only where the text is silent
+WithArgs(d) == [d EXCEPT !.name = IF @ = "" THEN cfgv.argname ELSE @,
+                         !.ref = IF @ = "" THEN cfgv.argref ELSE @,
+                         !.param = IF @.some THEN @ ELSE IF cfgv.argparam.some THEN SomeParam(cfgv.argparam.v) ELSE @]
+\* a parameter part that is not evaluated (globals_=False) leaves no parameter; a quoted name is not evaluated anyway
+ReadParam(p) == IF cfgv.gmode = "none" /\ p.kind # "sym" THEN NoParam ELSE p
 
 ------------------------------------------------------------------------------
-NoList == [given |-> FALSE, keys |-> {}]
+NoList == [given |-> FALSE, keys |-> {}, form |-> "list"]
 Init ==
     /\ doc = <<>> /\ line = "" /\ toks = <<>> /\ den = EmptyDen /\ lines = <<>>
     /\ side = "reac" /\ nside = 0 /\ ninact = 0 /\ stage = "start" /\ fault = "none"
     /\ allowed = NoList /\ arrow = "" /\ klass = "" /\ ncom = 0
-    /\ printed = <<>> /\ reparsed = <<>>
+    /\ printed = <<>> /\ reparsed = <<>> /\ cfgv = DefaultCfg /\ sl \in SliceNames
 
-Sep == IF nside = 0 THEN "" ELSE " + "
+Sep == IF nside > 0 THEN PlusSep ELSE IF line = "" /\ Wide THEN "  " ELSE ""
 InStoich == stage \in {"start", "line"}
 useAllowed == allowed.given
-KeyAllowed(key) == ~allowed.given \/ key.t \in allowed.keys
+KeyAllowed(key) == ~allowed.given \/ key.t \in allowed.keys \/ cfgv.msfk
+Fresh == stage = "start" /\ doc = <<>> /\ lines = <<>> /\ line = ""
 
-\* an allowed-key list accompanies the text
-GiveAllowed(ks) ==
-    /\ stage = "start" /\ doc = <<>> /\ lines = <<>> /\ ~allowed.given
-    /\ allowed' = [given |-> TRUE, keys |-> ks]
-    /\ UNCHANGED <<doc, line, toks, den, lines, side, nside, ninact, stage, fault, arrow, klass, ncom, printed, reparsed>>
+\* the configuration is fixed before the first character is written
+Configure(c) ==
+    /\ Fresh /\ cfgv = DefaultCfg /\ c # DefaultCfg
+    /\ c.spc \in {"normal", "wide", "tight"} /\ c.eol \in {"lf", "lfnt", "crlf"}
+    /\ c.gmode \in {"default", "empty", "none"} /\ c.ctoks \in {"default", "custom"}
+    /\ c.msfk \in BOOLEAN /\ c.dq \in BOOLEAN
+    /\ (c.msfk => allowed.given)
+    /\ cfgv' = c
+    /\ UNCHANGED <<doc, line, toks, den, lines, side, nside, ninact, stage, fault, allowed, arrow, klass, ncom, printed, reparsed, sl>>
+
+\* an allowed-key list accompanies the text (a string is split at blanks: it needs two keys)
+GiveAllowed(ks, form) ==
+    /\ Fresh /\ ~allowed.given /\ cfgv = DefaultCfg
+    /\ form \in {"list", "tuple", "set", "dict", "str"}
+    /\ (form = "str" => Cardinality(ks) >= 2)
+    /\ allowed' = [given |-> TRUE, keys |-> ks, form |-> form]
+    /\ UNCHANGED <<doc, line, toks, den, lines, side, nside, ninact, stage, fault, arrow, klass, ncom, printed, reparsed, cfgv, sl>>
 
 TermEffect(s, form, c, key) ==
     /\ line' = line \o Sep \o FormText(form, c) \o key.t
@@ -120,14 +185,14 @@ TermEffect(s, form, c, key) ==
     /\ den' = [den EXCEPT ![s] = Accumulate(@, key.t, CoefVal(c))]
     /\ nside' = nside + 1 /\ stage' = "line"
 
-\* an active term: Key, n Key, n * Key, n.d Key
+\* an active term: Key, n Key, n * Key, n.d Key, n.d * Key
 Term(s, form, c, key) ==
     /\ InStoich /\ s = side /\ FormOK(form, c) /\ KeyAllowed(key)
     /\ TermEffect(s, form, c, key)
-    /\ UNCHANGED <<doc, lines, side, ninact, fault, allowed, arrow, klass, ncom, printed, reparsed>>
+    /\ UNCHANGED <<doc, lines, side, ninact, fault, allowed, arrow, klass, ncom, printed, reparsed, cfgv, sl>>
 
 InactEffect(s, c, key) ==
-    /\ line' = line \o Sep \o "(" \o CoefText(c) \o " " \o key.t \o ")"
+    /\ line' = line \o Sep \o "(" \o CoefText(c) \o Gap \o key.t \o ")"
     /\ toks' = Append(toks, [k |-> "inact", side |-> s, form |-> "inact", coef |-> c, key |-> key])
     /\ den' = [den EXCEPT ![IField(s)] = Accumulate(@, key.t, CoefVal(c))]
     /\ nside' = nside + 1 /\ ninact' = ninact + 1 /\ stage' = "line"
@@ -136,85 +201,114 @@ InactEffect(s, c, key) ==
 Inactive(s, c, key) ==
     /\ InStoich /\ s = side /\ IsCoef(c) /\ KeyAllowed(key)
     /\ InactEffect(s, c, key)
-    /\ UNCHANGED <<doc, lines, side, fault, allowed, arrow, klass, ncom, printed, reparsed>>
+    /\ UNCHANGED <<doc, lines, side, fault, allowed, arrow, klass, ncom, printed, reparsed, cfgv, sl>>
 
 Arrow(a) ==
     /\ stage = "line" /\ side = "reac" /\ nside >= 1 /\ a \in {"->", "="}
     /\ arrow \in {"", a}
-    /\ line' = line \o " " \o a \o " "
+    /\ line' = line \o ArrowText(a)
     /\ toks' = Append(toks, [k |-> "arrow", a |-> a])
     /\ side' = "prod" /\ nside' = 0 /\ arrow' = a
     /\ klass' = IF klass = "" THEN KlassOf(a) ELSE klass
-    /\ UNCHANGED <<doc, den, lines, ninact, stage, fault, allowed, ncom, printed, reparsed>>
+    /\ UNCHANGED <<doc, den, lines, ninact, stage, fault, allowed, ncom, printed, reparsed, cfgv, sl>>
 
 LineComplete == side = "prod" /\ nside >= 1 /\ stage \in {"line", "tail"}
 
-Param(v, st) ==
-    /\ stage = "line" /\ LineComplete /\ ParamStyleOK(v, st)
-    /\ line' = line \o "; " \o ParamText(v, st)
-    /\ toks' = Append(toks, [k |-> "param", v |-> v, style |-> st])
-    /\ den' = [den EXCEPT !.param = SomeParam(v)]
+ParamEffect(text, p, tok) ==
+    /\ line' = line \o SemiSep \o text
+    /\ toks' = Append(toks, tok)
+    /\ den' = [den EXCEPT !.param = ReadParam(p)]
     /\ stage' = "tail"
-    /\ UNCHANGED <<doc, lines, side, nside, ninact, fault, allowed, arrow, klass, ncom, printed, reparsed>>
+
+\* a numeric parameter
+Param(v, st) ==
+    /\ stage = "line" /\ LineComplete /\ ParamStyleOK(v, st) /\ ~cfgv.argparam.some
+    /\ ParamEffect(ParamText(v, st), SomeParam(v), [k |-> "param", kind |-> "num", v |-> v, style |-> st])
+    /\ UNCHANGED <<doc, lines, side, nside, ninact, fault, allowed, arrow, klass, ncom, printed, reparsed, cfgv, sl>>
+
+\* a quantity: number times a unit expression (needs the default parsing context)
+ParamQty(v, st, ue) ==
+    /\ stage = "line" /\ LineComplete /\ ParamStyleOK(v, st) /\ st # "pow10" /\ ~cfgv.argparam.some
+    /\ ue \in UnitExprs /\ cfgv.gmode # "empty"
+    /\ ParamEffect(ParamText(v, st) \o ue.expr, QtyParam(v, ue.dim),
+                   [k |-> "param", kind |-> "qty", v |-> v, style |-> st, unit |-> ue.dim, expr |-> ue.expr])
+    /\ UNCHANGED <<doc, lines, side, nside, ninact, fault, allowed, arrow, klass, ncom, printed, reparsed, cfgv, sl>>
+
+\* a quoted name: a symbolic rate constant / equilibrium constant
+ParamSym(name) ==
+    /\ stage = "line" /\ LineComplete /\ name # "" /\ ~cfgv.argparam.some
+    /\ ParamEffect("'" \o name \o "'", SymParam(name), [k |-> "param", kind |-> "sym", name |-> name])
+    /\ UNCHANGED <<doc, lines, side, nside, ninact, fault, allowed, arrow, klass, ncom, printed, reparsed, cfgv, sl>>
 
 NKw == Cardinality({ i \in 1..Len(toks) : toks[i].k = "kw" })
 \* keyword part after the parameter: ; ref='...' [, name='...']
 Kw(k, v) ==
     /\ stage = "tail" /\ k \in {"ref", "name"} /\ den[k] = "" /\ v # ""
-    /\ line' = line \o (IF NKw = 0 THEN "; " ELSE ", ") \o k \o "='" \o v \o "'"
+    /\ line' = line \o (IF NKw = 0 THEN SemiSep ELSE CommaSep) \o k \o "=" \o Quote \o v \o Quote
     /\ toks' = Append(toks, [k |-> "kw", key |-> k, val |-> v])
     /\ den' = [den EXCEPT ![k] = v]
-    /\ UNCHANGED <<doc, lines, side, nside, ninact, stage, fault, allowed, arrow, klass, ncom, printed, reparsed>>
+    /\ UNCHANGED <<doc, lines, side, nside, ninact, stage, fault, allowed, arrow, klass, ncom, printed, reparsed, cfgv, sl>>
 
-\* a comment or blank line between reaction lines (multi-line texts)
+\* a comment or blank line between reaction lines: it begins (after blanks) with one of the
+\* comment tokens in force, or is blank
 Comment(c) ==
-    /\ stage = "start" /\ line = ""
-    /\ doc' = Append(doc, c) /\ ncom' = ncom + 1
-    /\ UNCHANGED <<line, toks, den, lines, side, nside, ninact, stage, fault, allowed, arrow, klass, printed, reparsed>>
+    /\ stage = "start" /\ line = "" /\ ~HasArgs
+    /\ (c.tok = "" \/ c.tok \in ActiveTokens)
+    /\ doc' = Append(doc, c.t) /\ ncom' = ncom + 1
+    /\ UNCHANGED <<line, toks, den, lines, side, nside, ninact, stage, fault, allowed, arrow, klass, printed, reparsed, cfgv, sl>>
 
 PushLine ==
-    /\ doc' = Append(doc, line)
-    /\ lines' = Append(lines, [toks |-> toks, den |-> den])
+    /\ doc' = Append(doc, line \o (IF Wide THEN " " ELSE ""))
+    /\ lines' = Append(lines, [toks |-> toks, den |-> WithArgs(den)])
     /\ line' = "" /\ toks' = <<>> /\ den' = EmptyDen /\ side' = "reac" /\ nside' = 0 /\ ninact' = 0
 
 NewLine ==
-    /\ LineComplete
+    /\ LineComplete /\ ~HasArgs
     /\ PushLine /\ stage' = "start"
-    /\ UNCHANGED <<fault, allowed, arrow, klass, ncom, printed, reparsed>>
+    /\ UNCHANGED <<fault, allowed, arrow, klass, ncom, printed, reparsed, cfgv, sl>>
 
+\* the text ends: after a complete line, after a trailing comment, or - a text of comments only -
+\* without any reaction (an empty system)
 Finish ==
     /\ \/ LineComplete /\ PushLine
-       \/ stage = "start" /\ line = "" /\ lines # <<>>
+       \/ stage = "start" /\ line = "" /\ (lines # <<>> \/ ncom > 0)
           /\ UNCHANGED <<doc, line, toks, den, lines, side, nside, ninact>>
     /\ stage' = "read"
-    /\ UNCHANGED <<fault, allowed, arrow, klass, ncom, printed, reparsed>>
+    /\ UNCHANGED <<fault, allowed, arrow, klass, ncom, printed, reparsed, cfgv, sl>>
 
 ------------------------------------------------------------------------------
 (* ill-formed texts: expected observation "raises" *)
 \* a species key that is not in the given allowed-key list (active or parenthesised term)
 UnknownKey(s, form, c, key) ==
-    /\ InStoich /\ s = side /\ fault = "none" /\ allowed.given /\ key.t \notin allowed.keys
+    /\ InStoich /\ s = side /\ fault = "none" /\ allowed.given /\ key.t \notin allowed.keys /\ ~cfgv.msfk
     /\ IF form = "inact" THEN IsCoef(c) /\ InactEffect(s, c, key)
        ELSE FormOK(form, c) /\ TermEffect(s, form, c, key) /\ UNCHANGED ninact
     /\ fault' = "unknownkey"
-    /\ UNCHANGED <<doc, lines, side, allowed, arrow, klass, ncom, printed, reparsed>>
+    /\ UNCHANGED <<doc, lines, side, allowed, arrow, klass, ncom, printed, reparsed, cfgv, sl>>
 
 \* the text ends without any arrow
 MissingArrow(k) ==
     /\ stage = "line" /\ side = "reac" /\ nside >= 1 /\ fault = "none" /\ lines = <<>>
     /\ k \in {"Reaction", "Equilibrium"}
     /\ PushLine /\ fault' = "missingarrow" /\ klass' = k /\ stage' = "read"
-    /\ UNCHANGED <<allowed, arrow, ncom, printed, reparsed>>
+    /\ UNCHANGED <<allowed, arrow, ncom, printed, reparsed, cfgv, sl>>
 
 \* the arrow of the other class: "A = B" handed to Reaction, "A -> B" handed to Equilibrium
 WrongArrow(a) ==
     /\ stage = "line" /\ side = "reac" /\ nside >= 1 /\ fault = "none" /\ a \in {"->", "="}
     /\ lines = <<>>
-    /\ line' = line \o " " \o a \o " "
+    /\ line' = line \o ArrowText(a)
     /\ toks' = Append(toks, [k |-> "arrow", a |-> a])
     /\ side' = "prod" /\ nside' = 0 /\ arrow' = a /\ klass' = OtherKlass(a)
     /\ fault' = "wrongarrow"
-    /\ UNCHANGED <<doc, den, lines, ninact, stage, allowed, ncom, printed, reparsed>>
+    /\ UNCHANGED <<doc, den, lines, ninact, stage, allowed, ncom, printed, reparsed, cfgv, sl>>
+
+\* a line that begins with a comment token which is NOT in force is not a comment
+StaleComment(c) ==
+    /\ stage = "start" /\ line = "" /\ ~HasArgs /\ fault = "none"
+    /\ c.tok # "" /\ c.tok \notin ActiveTokens
+    /\ doc' = Append(doc, c.t) /\ ncom' = ncom + 1 /\ fault' = "notacomment"
+    /\ UNCHANGED <<line, toks, den, lines, side, nside, ninact, stage, allowed, arrow, klass, printed, reparsed, cfgv, sl>>
 
 ------------------------------------------------------------------------------
 (* DECLARATIVE denotation of a token sequence, straight from the statement of C12 *)
@@ -226,8 +320,10 @@ SideMap(ts, kind, s) ==
         QSumSet({ i \in I : ts[i].key.t = key }, LAMBDA i : CoefVal(ts[i].coef))]
 KwOf(ts, k) == LET I == { i \in 1..Len(ts) : ts[i].k = "kw" /\ ts[i].key = k } IN
                IF I = {} THEN "" ELSE ts[CHOOSE i \in I : TRUE].val
+TokParam(t) == IF t.kind = "num" THEN SomeParam(t.v)
+               ELSE IF t.kind = "qty" THEN QtyParam(t.v, t.unit) ELSE SymParam(t.name)
 ParamOf(ts) == LET I == { i \in 1..Len(ts) : ts[i].k = "param" } IN
-               IF I = {} THEN NoParam ELSE SomeParam(ts[CHOOSE i \in I : TRUE].v)
+               IF I = {} THEN NoParam ELSE ReadParam(TokParam(ts[CHOOSE i \in I : TRUE]))
 DenoteLine(ts) ==
     [reac |-> SideMap(ts, "term", "reac"), prod |-> SideMap(ts, "term", "prod"),
      ireac |-> SideMap(ts, "inact", "reac"), iprod |-> SideMap(ts, "inact", "prod"),
@@ -244,27 +340,37 @@ PrintSide(m, s) ==
     LET ks == SetSeq(DOMAIN m) IN
     [i \in 1..Len(ks) |-> [k |-> "term", side |-> s, form |-> IF m[ks[i]] = QOne THEN "bare" ELSE "n",
                            coef |-> PCoef(m[ks[i]]), key |-> Key(ks[i], "")]]
-PrintedParam(p) == IF p.some THEN SomeParam(RoundSig(p.v, 3)) ELSE NoParam
+\* a number is printed to three significant digits, a quoted name as it is
+PrintedParam(p) == IF p.some /\ p.kind = "num" THEN SomeParam(RoundSig(p.v, 3)) ELSE p
 \* printing takes two options: with_param (the parameter is printed) and with_name (the name is
 \* printed after it).  A printed name ("A -> B; 2.5; r1") is not part of the notation, so printing
-\* WITH names is a second-phase option only for texts whose reactions carry no name.
+\* WITH names is a second-phase option only for texts whose reactions carry no name; a printed
+\* quantity ("1e+08 1/(s*M)") is not part of it either, so printing WITH parameters is an option
+\* only for texts without quantity parameters.
 Opt(wp, wn) == [wp |-> wp, wn |-> wn]
 AllPrintOpts == { Opt(a, b) : a \in BOOLEAN, b \in BOOLEAN }
 PrintTokens(d, a, o) ==
     PrintSide(d.reac, "reac") \o <<[k |-> "arrow", a |-> a]>> \o PrintSide(d.prod, "prod")
-    \o (IF o.wp /\ d.param.some THEN <<[k |-> "param", v |-> RoundSig(d.param.v, 3), style |-> "sci"]>> ELSE <<>>)
-\* reading printed tokens: the same declarative denotation (printed coefficients are rationals)
+    \o (IF o.wp /\ d.param.some
+        THEN <<IF d.param.kind = "sym" THEN [k |-> "param", kind |-> "sym", name |-> d.param.name]
+               ELSE [k |-> "param", kind |-> "num", v |-> RoundSig(d.param.v, 3), style |-> "sci"]>>
+        ELSE <<>>)
+\* reading printed tokens: the same declarative denotation (printed coefficients are rationals);
+\* the printed text is read under the default configuration
 PSideMap(ts, s) ==
     LET I == TermsOn(ts, "term", s) IN
     [key \in { ts[i].key.t : i \in I } |->
         QSumSet({ i \in I : ts[i].key.t = key }, LAMBDA i : PCoefVal(ts[i].coef))]
+PParamOf(ts) == LET I == { i \in 1..Len(ts) : ts[i].k = "param" } IN
+                IF I = {} THEN NoParam ELSE TokParam(ts[CHOOSE i \in I : TRUE])
 ParsePrinted(ts) ==
     [reac |-> PSideMap(ts, "reac"), prod |-> PSideMap(ts, "prod"), ireac |-> EmptyM, iprod |-> EmptyM,
-     param |-> ParamOf(ts), ref |-> "", name |-> ""]
+     param |-> PParamOf(ts), ref |-> "", name |-> ""]
 
 HasInactive(d) == d.ireac # EmptyM \/ d.iprod # EmptyM
 HasName == \E i \in 1..Len(lines) : lines[i].den.name # ""
-Applicable(o) == o.wn => ~HasName
+HasQty == \E i \in 1..Len(lines) : lines[i].den.param.some /\ lines[i].den.param.kind = "qty"
+Applicable(o) == (o.wn => ~HasName) /\ (o.wp => ~HasQty)
 OptSeq == SetSeq({ o \in PrintOpts : Applicable(o) })
 Printable == /\ fault = "none" /\ lines # <<>>
              /\ \A i \in 1..Len(lines) : ~HasInactive(lines[i].den)
@@ -277,7 +383,7 @@ PrintText ==
                       [opt |-> OptSeq[j],
                        lines |-> [i \in 1..Len(lines) |-> PrintTokens(lines[i].den, arrow, OptSeq[j])]]]
     /\ stage' = "printed"
-    /\ UNCHANGED <<doc, line, toks, den, lines, side, nside, ninact, fault, allowed, arrow, klass, ncom, reparsed>>
+    /\ UNCHANGED <<doc, line, toks, den, lines, side, nside, ninact, fault, allowed, arrow, klass, ncom, reparsed, cfgv, sl>>
 
 ParseText ==
     /\ stage = "printed"
@@ -285,31 +391,38 @@ ParseText ==
                        [opt |-> printed[j].opt,
                         lines |-> [i \in 1..Len(printed[j].lines) |-> ParsePrinted(printed[j].lines[i])]]]
     /\ stage' = "final"
-    /\ UNCHANGED <<doc, line, toks, den, lines, side, nside, ninact, fault, allowed, arrow, klass, ncom, printed>>
+    /\ UNCHANGED <<doc, line, toks, den, lines, side, nside, ninact, fault, allowed, arrow, klass, ncom, printed, cfgv, sl>>
 
 ------------------------------------------------------------------------------
 (* generation steps restricted to the alphabets of the configuration *)
-CoefsOf(f) == IF f = "bare" THEN {One} ELSE IF f = "dec" THEN DecCoefs ELSE IntCoefs
+CoefsOf(f) == IF f = "bare" THEN {One} ELSE IF f \in {"dec", "decstar"} THEN DecCoefs ELSE IntCoefs
 SideRoom == nside < (IF side = "reac" THEN MaxReac ELSE MaxProd)
-GenAllowed == TRUE \in AllowedModes /\ GiveAllowed(AllowedKeys)
+GenAllowed == TRUE \in AllowedModes /\ Fresh /\ \E f \in AllowedForms : GiveAllowed(AllowedKeys, f)
+GenConfig == Fresh /\ cfgv = DefaultCfg /\ (allowed.given \/ FALSE \in AllowedModes) /\ \E c \in Configs : Configure(c)
 GenTerm == InStoich /\ SideRoom /\ \E f \in Forms, key \in Keys : \E c \in CoefsOf(f) :
               SideRoom /\ (useAllowed \/ FALSE \in AllowedModes) /\ Term(side, f, c, key)
 GenInactive == InStoich /\ SideRoom /\ ninact < MaxInact /\ \E c \in InactCoefs, key \in Keys :
               SideRoom /\ ninact < MaxInact /\ (useAllowed \/ FALSE \in AllowedModes) /\ Inactive(side, c, key)
 GenArrow == \E a \in Arrows : Arrow(a)
-GenParam == stage = "line" /\ LineComplete /\ \E p \in Params : Param(p.v, p.style)
+GenParam == stage = "line" /\ LineComplete /\ \E p \in Params :
+               IF p.kind = "num" THEN Param(p.v, p.style)
+               ELSE IF p.kind = "qty" THEN ParamQty(p.v, p.style, p.ue)
+               ELSE ParamSym(p.name)
 GenKw == stage = "tail" /\ \E w \in Kws : Kw(w.k, w.v)
-GenComment == \E c \in Comments : ncom < MaxComments /\ MaxLines > 1 /\ Comment(c)
+GenComment == stage = "start" /\ \E c \in Comments : ncom < MaxComments /\ MaxLines > 1 /\ Comment(c)
 GenNewLine == Len(lines) + 1 < MaxLines /\ NewLine
 GenUnknownKey == "unknownkey" \in FaultKinds /\ InStoich /\ SideRoom /\ fault = "none" /\ allowed.given /\ \E f \in Forms \cup {"inact"}, key \in Keys :
                     \E c \in (IF f = "inact" THEN InactCoefs ELSE CoefsOf(f)) :
                         SideRoom /\ (f = "inact" => ninact < MaxInact) /\ UnknownKey(side, f, c, key)
 GenMissingArrow == "missingarrow" \in FaultKinds /\ \E k \in {"Reaction", "Equilibrium"} : MissingArrow(k)
 GenWrongArrow == "wrongarrow" \in FaultKinds /\ \E a \in {"->", "="} : WrongArrow(a)
+GenStaleComment == "notacomment" \in FaultKinds /\ stage = "start" /\ \E c \in Comments :
+                      ncom < MaxComments /\ MaxLines > 1 /\ StaleComment(c)
 
 Next ==
-    \/ GenAllowed \/ GenTerm \/ GenInactive \/ GenArrow \/ GenParam \/ GenKw \/ GenComment
-    \/ GenNewLine \/ Finish \/ GenUnknownKey \/ GenMissingArrow \/ GenWrongArrow \/ PrintText \/ ParseText
+    \/ GenAllowed \/ GenConfig \/ GenTerm \/ GenInactive \/ GenArrow \/ GenParam \/ GenKw \/ GenComment
+    \/ GenNewLine \/ Finish \/ GenUnknownKey \/ GenMissingArrow \/ GenWrongArrow \/ GenStaleComment
+    \/ PrintText \/ ParseText
 
 Spec == Init /\ [][Next]_vars
 
@@ -317,13 +430,16 @@ Spec == Init /\ [][Next]_vars
 (* invariants *)
 TypeOK == /\ stage \in {"start", "line", "tail", "read", "printed", "final"}
           /\ side \in {"reac", "prod"}
-          /\ fault \in {"none", "unknownkey", "missingarrow", "wrongarrow"}
+          /\ fault \in {"none", "unknownkey", "missingarrow", "wrongarrow", "notacomment"}
 
-AllDens == [i \in 1..Len(lines) |-> lines[i]] \o (IF toks = <<>> THEN <<>> ELSE <<[toks |-> toks, den |-> den]>>)
+\* finished lines carry the keyword arguments, the line being written does not yet
+AllDens == [i \in 1..Len(lines) |-> [toks |-> lines[i].toks, den |-> lines[i].den, done |-> TRUE]]
+           \o (IF toks = <<>> THEN <<>> ELSE <<[toks |-> toks, den |-> den, done |-> FALSE]>>)
 
 \* operational accumulation = declarative denotation: repeated species are summed, per side
 RepeatedSpeciesSummed ==
-    \A i \in 1..Len(AllDens) : AllDens[i].den = DenoteLine(AllDens[i].toks)
+    \A i \in 1..Len(AllDens) :
+        AllDens[i].den = IF AllDens[i].done THEN WithArgs(DenoteLine(AllDens[i].toks)) ELSE DenoteLine(AllDens[i].toks)
 
 \* a parenthesised term never contributes to the active maps and vice versa
 InactiveNeverActive ==
@@ -343,7 +459,7 @@ StoichParamEq(d1, d2) == d1.reac = d2.reac /\ d1.prod = d2.prod /\ d1.ireac = d2
 RoundTrip(d, o) == [d EXCEPT !.param = IF o.wp THEN PrintedParam(d.param) ELSE NoParam, !.ref = "", !.name = ""]
 \* the re-read object compares equal to the original iff no parameter was lost or rounded
 \* (equality of reactions ignores names and references)
-ExactUnder(d, o) == ~d.param.some \/ (o.wp /\ NumSig(d.param.v) <= 3)
+ExactUnder(d, o) == ~d.param.some \/ (o.wp /\ (d.param.kind = "sym" \/ (d.param.kind = "num" /\ NumSig(d.param.v) <= 3)))
 ParsePrintIdentity ==
     stage = "final" =>
         /\ Len(reparsed) = Len(OptSeq) /\ Len(reparsed) >= 1
@@ -351,32 +467,44 @@ ParsePrintIdentity ==
               /\ reparsed[j].opt = OptSeq[j] /\ Len(reparsed[j].lines) = Len(lines)
               /\ \A i \in 1..Len(lines) :
                     /\ reparsed[j].lines[i] = RoundTrip(lines[i].den, reparsed[j].opt)
-                    /\ ((lines[i].den.param.some /\ reparsed[j].opt.wp) =>
+                    /\ ((lines[i].den.param.some /\ lines[i].den.param.kind = "num" /\ reparsed[j].opt.wp) =>
                            WithinHalfUlpExact(reparsed[j].lines[i].param.v, lines[i].den.param.v, 3))
                     /\ (ExactUnder(lines[i].den, reparsed[j].opt) =>
                            StoichParamEq(reparsed[j].lines[i], lines[i].den))
+
+\* keyword arguments never override what the text says
+TextWins ==
+    \A i \in 1..Len(lines) :
+        LET t == DenoteLine(lines[i].toks) IN
+        /\ (t.name # "" => lines[i].den.name = t.name)
+        /\ (t.ref # "" => lines[i].den.ref = t.ref)
+        /\ (t.param.some => lines[i].den.param = t.param)
 
 ------------------------------------------------------------------------------
 (* case export *)
 Terminal == stage = "final" \/ (stage = "read" /\ ~Printable)
 Pairs(m) == SetSeq({ <<k, m[k]>> : k \in DOMAIN m })
 DecJ(v) == [neg |-> v.neg, digs |-> v.digs, e |-> v.e]
-ParamJ(p) == IF p.some THEN [some |-> TRUE, v |-> DecJ(p.v)] ELSE [some |-> FALSE]
+ParamJ(p) == IF ~p.some THEN [some |-> FALSE]
+             ELSE IF p.kind = "num" THEN [some |-> TRUE, kind |-> "num", v |-> DecJ(p.v)]
+             ELSE IF p.kind = "qty" THEN [some |-> TRUE, kind |-> "qty", v |-> DecJ(p.v), unit |-> p.unit]
+             ELSE [some |-> TRUE, kind |-> "sym", name |-> p.name]
 DenJ(d) == [reac |-> Pairs(d.reac), prod |-> Pairs(d.prod), ireac |-> Pairs(d.ireac), iprod |-> Pairs(d.iprod),
             param |-> ParamJ(d.param), ref |-> d.ref, name |-> d.name]
-\* the round trip may give the parameter back exactly or rounded to three digits (either neighbour on a tie)
-RTParamJ(p) == IF p.some THEN [some |-> TRUE, allowed |-> SetSeq({DecJ(r) : r \in RoundSigSet(p.v, 3) \cup {p.v}})]
-               ELSE [some |-> FALSE]
+\* the round trip may give a number back exactly or rounded to three digits (either neighbour on a tie)
+RTParamJ(p) == IF ~p.some THEN [some |-> FALSE]
+               ELSE IF p.kind = "sym" THEN [some |-> TRUE, kind |-> "sym", name |-> p.name]
+               ELSE [some |-> TRUE, kind |-> "num", allowed |-> SetSeq({DecJ(r) : r \in RoundSigSet(p.v, 3) \cup {p.v}})]
 RTJ(d, o) == [reac |-> Pairs(d.reac), prod |-> Pairs(d.prod),
               param |-> IF o.wp THEN RTParamJ(d.param) ELSE [some |-> FALSE],
               exact |-> ExactUnder(d, o)]
 \* constructor checks that are not properties of reading the text (documented defaults):
-\* all coefficients integral, some net effect
+\* all coefficients integral, some net effect, units of a quantity parameter consistent with the order
 AllKeys(d) == DOMAIN d.reac \cup DOMAIN d.prod \cup DOMAIN d.ireac \cup DOMAIN d.iprod
 NetZero(d) == \A k \in AllKeys(d) :
                  QAdd(Get(d.prod, k), Get(d.iprod, k)) = QAdd(Get(d.reac, k), Get(d.ireac, k))
 NonIntegral(d) == \E f \in {"reac", "prod", "ireac", "iprod"} : \E k \in DOMAIN d[f] : ~QIsInt(d[f][k])
-NeedsNoChecks(d) == NetZero(d) \/ NonIntegral(d)
+NeedsNoChecks(d) == NetZero(d) \/ NonIntegral(d) \/ (d.param.some /\ d.param.kind = "qty")
 StoichEq(d1, d2) == d1.reac = d2.reac /\ d1.prod = d2.prod /\ d1.ireac = d2.ireac /\ d1.iprod = d2.iprod
                     /\ d1.param = d2.param
 \* (systems also refuse two reactions with the same name by default)
@@ -389,41 +517,57 @@ RTDuplicates(o) == \E i, j \in 1..Len(lines) : i < j /\
                       StoichParamEq(RoundTrip(lines[i].den, o), RoundTrip(lines[j].den, o))
 TokSet == UNION { { lines[i].toks[j] : j \in 1..Len(lines[i].toks) } : i \in 1..Len(lines) }
 TermToks == { t \in TokSet : t.k \in {"term", "inact"} }
+UsedKeys == UNION { AllKeys(lines[i].den) : i \in 1..Len(lines) }
+\* the substances of a system: the given list (plus, with missing_substances_from_keys, what else
+\* the reactions name), or - no list given - exactly the keys the reactions name
+SystemKeys == IF allowed.given THEN allowed.keys \cup (IF cfgv.msfk THEN UsedKeys ELSE {}) ELSE UsedKeys
 \* a bare term (no coefficient) whose key itself begins with a parenthesis
 BareParenSides == { t.side : t \in { u \in TermToks : u.k = "term" /\ u.form = "bare" /\ u.key.lead = "(" } }
-\* sides on which the PRINTED text has such a term: a key beginning with "(" whose coefficient is 1
-PrintedBareParenSides ==
-    UNION { { t.side : t \in { u \in { lines[i].toks[j] : j \in 1..Len(lines[i].toks) } :
-                                  u.k = "term" /\ u.key.lead = "(" /\ lines[i].den[u.side][u.key.t] = QOne } }
-            : i \in 1..Len(lines) }
 HasRepeat == \E i \in 1..Len(lines) : \E s \in {"reac", "prod"} : \E kind \in {"term", "inact"} :
                 Cardinality(TermsOn(lines[i].toks, kind, s)) > Cardinality(DOMAIN SideMap(lines[i].toks, kind, s))
+\* the system readers are used for several lines, comments, and the options only they have
+IsSystem == Len(lines) > 1 \/ ncom > 0 \/ cfgv.msfk \/ cfgv.ctoks # "default" \/ lines = <<>>
+\* copy(param=...) replaces the parameter and nothing else
+OverrideParam == Dec(FALSE, <<7, 2, 5>>, 0)
 Class ==
     (IF fault # "none" THEN "fault-" \o fault ELSE "ok")
-    \o (IF Len(lines) > 1 \/ ncom > 0 THEN "-sys" ELSE "")
+    \o (IF IsSystem THEN "-sys" ELSE "")
+    \o (IF lines = <<>> THEN "-empty" ELSE "")
     \o (IF \E t \in TermToks : t.k = "inact" THEN "-inact" ELSE "")
     \o (IF HasRepeat THEN "-rep" ELSE "")
     \o (IF \E t \in TermToks : t.coef.fd > 0 THEN "-dec" ELSE "")
-    \o (IF \E t \in TermToks : t.form = "nstar" THEN "-star" ELSE "")
+    \o (IF \E t \in TermToks : t.form \in {"nstar", "decstar"} THEN "-star" ELSE "")
     \o (IF \E t \in TermToks : t.key.lead # "" THEN "-br" ELSE "")
     \o (IF BareParenSides # {} THEN "-bareparen" ELSE "")
-    \o (IF \E t \in TokSet : t.k = "param" THEN "-param" ELSE "")
+    \o (IF \E t \in TokSet : t.k = "param" /\ t.kind = "num" THEN "-param" ELSE "")
+    \o (IF \E t \in TokSet : t.k = "param" /\ t.kind = "qty" THEN "-qty" ELSE "")
+    \o (IF \E t \in TokSet : t.k = "param" /\ t.kind = "sym" THEN "-sym" ELSE "")
     \o (IF \E t \in TokSet : t.k = "kw" THEN "-kw" ELSE "")
-    \o (IF useAllowed THEN "-allowed" ELSE "")
+    \o (IF useAllowed THEN "-allowed-" \o allowed.form ELSE "")
     \o (IF arrow = "=" THEN "-eq" ELSE "")
+    \o (IF cfgv # DefaultCfg THEN "-cfg" ELSE "")
+    \o (IF cfgv.spc # "normal" THEN "-" \o cfgv.spc ELSE "")
+    \o (IF cfgv.eol # "lf" THEN "-" \o cfgv.eol ELSE "")
+    \o (IF cfgv.gmode # "default" THEN "-g" \o cfgv.gmode ELSE "")
+    \o (IF cfgv.ctoks # "default" THEN "-ctoks" ELSE "")
+    \o (IF cfgv.msfk THEN "-msfk" ELSE "")
+    \o (IF HasArgs THEN "-args" ELSE "")
 CaseRec ==
-    [ in |-> [doc |-> doc, klass |-> klass, system |-> (Len(lines) > 1 \/ ncom > 0),
-              allowed |-> [given |-> useAllowed, keys |-> SetSeq(allowed.keys)]],
+    [ in |-> [slice |-> sl, doc |-> doc, klass |-> klass, system |-> IsSystem,
+              allowed |-> [given |-> useAllowed, keys |-> SetSeq(allowed.keys), form |-> allowed.form],
+              cfg |-> [spc |-> cfgv.spc, eol |-> cfgv.eol, gmode |-> cfgv.gmode, ctoks |-> cfgv.ctoks,
+                       msfk |-> cfgv.msfk, dq |-> cfgv.dq, argname |-> cfgv.argname, argref |-> cfgv.argref,
+                       argparam |-> IF cfgv.argparam.some THEN [some |-> TRUE, v |-> DecJ(cfgv.argparam.v)]
+                                    ELSE [some |-> FALSE]]],
       cls |-> Class,
       exp |-> [ raise |-> fault # "none", fault |-> fault,
                 lines |-> [i \in 1..Len(lines) |-> DenJ(lines[i].den)],
                 nochecks |-> [i \in 1..Len(lines) |-> NeedsNoChecks(lines[i].den)],
                 duplicates |-> Duplicates,
-                bareparen |-> SetSeq(BareParenSides),
-                rt_bareparen |-> SetSeq(PrintedBareParenSides),
-                unknown_bareparen |-> (allowed.given /\ \E t \in TermToks : t.k = "term" /\ t.form = "bare"
-                                          /\ t.key.lead = "(" /\ t.key.t \notin allowed.keys),
-                copy_eq |-> TRUE,
+                substances |-> SetSeq(SystemKeys),
+                copy_eq |-> TRUE, copy_indep |-> TRUE,
+                override |-> DecJ(OverrideParam),
+                copy_over |-> [i \in 1..Len(lines) |-> DenJ([lines[i].den EXCEPT !.param = SomeParam(OverrideParam)])],
                 printable |-> (stage = "final"),
                 rt |-> IF stage = "final"
                        THEN [j \in 1..Len(OptSeq) |->
